@@ -37,6 +37,23 @@ fn poll<I: Iterator>(mut it: I) -> usize {
     n
 }
 
+/// Use through clones: advance `k` items, clone, advance original and clone in
+/// turns, clone again, drop the original, and poll the clones that outlive it.
+fn poll_cloned<I: Iterator + Clone>(mut it: I, k: usize) -> usize {
+    let mut n = 0;
+    for _ in 0..k {
+        n += usize::from(it.next().is_some());
+    }
+    let mut c = it.clone();
+    for _ in 0..3 {
+        n += usize::from(c.next().is_some());
+        n += usize::from(it.next().is_some());
+    }
+    let late = it.clone();
+    drop(it);
+    n + poll(c) + poll(late)
+}
+
 /// Vertex argument: in range, last, order, order + 1, far; for sparse vertex
 /// sets also ids in the gaps.
 fn arg(r: &mut Rng, m: &Model) -> usize {
@@ -82,20 +99,23 @@ const TRAV: [&str; 12] = [
     "Tarjan::components",
 ];
 
-fn traverse<D: Order + OutNeighbors + Vertices>(d: &D, t: usize, s: &[usize], tgt: usize) {
+fn traverse<D: Order + OutNeighbors + Vertices + Clone>(d: &D, t: usize, s: &[usize], tgt: usize) {
     let it = || s.iter().copied();
     let _ = catch(|| match t {
         0 => {
             let _ = poll(Bfs::new(d, it()));
+            let _ = poll_cloned(Bfs::new(d, it()), tgt % 3);
         }
         1 => {
             let _ = poll(BfsDist::new(d, it()));
+            let _ = poll_cloned(BfsDist::new(d, it()), tgt % 3);
         }
         2 => {
             let _ = BfsDist::new(d, it()).distances();
         }
         3 => {
             let _ = poll(BfsPred::new(d, it()));
+            let _ = poll_cloned(BfsPred::new(d, it()), tgt % 3);
         }
         4 => {
             let _ = BfsPred::new(d, it()).predecessors();
@@ -108,12 +128,15 @@ fn traverse<D: Order + OutNeighbors + Vertices>(d: &D, t: usize, s: &[usize], tg
         }
         7 => {
             let _ = poll(Dfs::new(d, it()));
+            let _ = poll_cloned(Dfs::new(d, it()), tgt % 3);
         }
         8 => {
             let _ = poll(DfsDist::new(d, it()));
+            let _ = poll_cloned(DfsDist::new(d, it()), tgt % 3);
         }
         9 => {
             let _ = poll(DfsPred::new(d, it()));
+            let _ = poll_cloned(DfsPred::new(d, it()), tgt % 3);
         }
         10 => {
             let _ = DfsPred::new(d, it()).predecessors();
@@ -229,10 +252,17 @@ where
     }
 }
 
-const ALGEBRA: [&str; 3] = ["complement", "converse", "union"];
+const ALGEBRA: [&str; 4] = ["complement", "converse", "union", "pair predicates on two digraphs"];
 
-fn algebra<D: Clone + Complement + Converse + Union>(d: &D, e: &D, k: usize) {
+fn algebra<D: Clone + Complement + Converse + Union + Arcs + HasArc + Vertices>(d: &D, e: &D, k: usize) {
     match k {
+        3 => {
+            for (x, y) in [(d, e), (e, d)] {
+                let _ = catch(|| x.is_subdigraph(y));
+                let _ = catch(|| x.is_superdigraph(y));
+                let _ = catch(|| x.is_spanning_subdigraph(y));
+            }
+        }
         0 => {
             let _ = catch(|| d.complement());
         }
@@ -568,8 +598,49 @@ fn probe(id: usize, r: &mut Rng, max: usize) -> String {
     id -= nv;
     if id < ALGEBRA.len() * 5 {
         let (k, v) = (id / 5, id % 5);
-        let m1 = small_model(r, max);
-        let sp1 = gen::sparsify(r, &m1);
+        let mut m1 = small_model(r, max);
+        let mut sp1 = gen::sparsify(r, &m1);
+        if k == 3 && r.chance(0.7) {
+            // E derived from D: some arcs deleted, then the vertex set grown
+            // or shrunk, so that sub-/superdigraph tests get past their first
+            // comparison
+            let thin = |r: &mut Rng, m: &Model| {
+                let mut t = m.clone();
+                let p = *r.pick(&[0.0, 0.3, 0.7, 1.0]);
+                t.arcs.retain(|_, _| !r.chance(p));
+                t
+            };
+            let n0 = m0.n();
+            let t = thin(r, &m0);
+            m1 = Model::new(match r.below(4) {
+                0 => n0,
+                1 => n0 + 1,
+                2 => n0 + 1 + r.below(3),
+                _ => n0.saturating_sub(1).max(1),
+            });
+            for (&(a, b), &w) in &t.arcs {
+                if a < m1.n() && b < m1.n() {
+                    m1.add(a, b, w);
+                }
+            }
+            sp1 = thin(r, &sparse);
+            let top = sp1.verts.iter().max().copied().unwrap_or(0);
+            for _ in 0..r.below(3) {
+                let extra = match r.below(3) {
+                    0 => top.saturating_add(1 + r.below(3)),
+                    1 => r.below(top.saturating_add(2)),
+                    _ => *r.pick(&gen::SPARSE_POOL),
+                };
+                let _ = sp1.verts.insert(extra);
+            }
+            if r.chance(0.3) {
+                // drop the vertices that have lost all their arcs
+                let used: std::collections::BTreeSet<usize> = sp1.arcs.keys().flat_map(|&(a, b)| [a, b]).collect();
+                if !used.is_empty() {
+                    sp1.verts.retain(|x| used.contains(x));
+                }
+            }
+        }
         match v {
             0 => algebra(&AdjacencyList::build(&m0), &AdjacencyList::build(&m1), k),
             1 => algebra(&AdjacencyMap::build(&m0), &AdjacencyMap::build(&m1), k),
@@ -592,15 +663,18 @@ fn probe(id: usize, r: &mut Rng, max: usize) -> String {
             let _ = catch(|| match id {
                 0 => {
                     let _ = poll(Dijkstra::new(&d, it()));
+                    let _ = poll_cloned(Dijkstra::new(&d, it()), tgt % 3);
                 }
                 1 => {
                     let _ = poll(DijkstraDist::new(&d, it()));
+                    let _ = poll_cloned(DijkstraDist::new(&d, it()), tgt % 3);
                 }
                 2 => {
                     let _ = DijkstraDist::new(&d, it()).distances();
                 }
                 3 => {
                     let _ = poll(DijkstraPred::new(&d, it()));
+                    let _ = poll_cloned(DijkstraPred::new(&d, it()), tgt % 3);
                 }
                 4 => {
                     let _ = DijkstraPred::new(&d, it()).predecessors();
